@@ -33,6 +33,8 @@ type ProtModel struct {
 	eval       []float64  // Eigen values
 	alpha      float64    // Alpha
 	usegamma   bool
+	exch       *mat.Dense // the matrix of the model as given: InitModel starts from it every time
+	modelpi    []float64  // aa frequency of the model
 }
 
 // Initialize a new protein model, given the name of the model as const int:
@@ -69,6 +71,8 @@ func NewProtModel(model int, usegamma bool, alpha float64) (*ProtModel, error) {
 		nil,
 		alpha,
 		usegamma,
+		mat.DenseCopyOf(m),
+		pi,
 	}, nil
 }
 
@@ -114,7 +118,12 @@ func (model *ProtModel) InitModel(aafreqs []float64) error {
 	}
 	if aafreqs != nil {
 		model.pi = aafreqs
+	} else {
+		model.pi = model.modelpi
 	}
+	// InitModel may be called again (other frequencies, another alignment): the
+	// rate matrix is rebuilt from the matrix of the model, not from the previous Q
+	model.mat.Copy(model.exch)
 
 	/* multiply the nth col of Q by the nth term of pi/100 just as in PAML */
 	model.mat.Apply(func(i, j int, v float64) float64 { return v * model.pi[j] / 100.0 }, model.mat)
